@@ -128,6 +128,13 @@ func devMain(args []string) int {
 			return 2
 		}
 		return 0
+	case "selftest":
+		rep := &Report{Prop: "dev", Tier: "quick", Seed: envSeed(), Start: time.Now(), Notes: map[string]int{}, NoteEx: map[string]string{}}
+		bindingSelfTest(rep)
+		for _, e := range rep.Infra {
+			fmt.Println("INFRA:", e)
+		}
+		return len(rep.Infra)
 	case "repotrace":
 		st, rs, err := repoTraceStage(10*time.Minute, 20)
 		if st != nil && rs != nil {
